@@ -99,4 +99,14 @@ MUTANTS = [
     M("c16.6-spd-round", "C16", "C16.6", MDF, "trcd_min = self.txx_ns(mtb=b[18], ftb=b[36])", "trcd_min = round(self.txx_ns(mtb=b[18], ftb=b[36]))"),
     B("c16-twin-order", "C16", MDF, "return max(self.ck_to_cycles(timing.ck), self.ns_to_cycles(timing.ns, **kwargs))", "return max(self.ns_to_cycles(timing.ns, **kwargs), self.ck_to_cycles(timing.ck))"),
     B("c16-twin-period", "C16", MDF, "        t += self.margin if margin else 0\n        return rounding(t/clk_period_ns)", "        if margin:\n            t = t + self.margin\n        return rounding(t/clk_period_ns)"),
+    # ---- C04 ----
+    M("c04.1-timer-wait", "C04", "C04.1", RFF, "self.comb += timer.wait.eq(~timer.done)", "self.comb += timer.wait.eq(~timer.done & ~cmd.valid)"),
+    M("c04.1-trefi-half", "C04", "C04.1", RFF, "timer = RefreshTimer(settings.timing.tREFI)", "timer = RefreshTimer(settings.timing.tREFI + settings.timing.tRFC)"),
+    M("c04.1-timer-reset", "C04", "C04.1", RFF, "count = Signal(bits_for(trefi), reset=trefi-1)\n\n        self.sync += [\n            If(self.wait & ~self.done,", "count = Signal(bits_for(trefi), reset=trefi)\n\n        self.sync += [\n            If(self.wait & ~self.done,"),
+    M("c04.2-seq-postponing", "C04", "C04.2", RFF, "settings.timing.tRFC, postponing)", "settings.timing.tRFC)"),
+    M("c04.2-seq-count", "C04", "C04.2", RFF, "count = Signal(bits_for(postponing), reset=postponing-1)\n        self.sync += [\n            If(self.start,", "count = Signal(bits_for(postponing), reset=postponing-2)\n        self.sync += [\n            If(self.start,"),
+    M("c04.3-refresh-late", "C04", "C04.3", BMF, 'If(refresh_req,\n                NextState("REFRESH")\n            ).Elif(cmd_buffer.source.valid,', 'If(refresh_req & ~cmd_buffer.source.valid,\n                NextState("REFRESH")\n            ).Elif(cmd_buffer.source.valid,'),
+    M("c04.3-mux-order", "C04", "C04.3", MXF, '            If(go_to_refresh,\n                NextState("REFRESH")\n            )\n        )\n        fsm.act("WRITE",', '        )\n        fsm.act("WRITE",'),
+    M("c04.5-zqcs-pulse", "C04", "C04.5", RFF, "            self.sync += [\n                If(zqcs_executer.start, wants_zqcs.eq(0)),\n                If(zqcs_timer.done,     wants_zqcs.eq(1)),\n            ]", "            self.comb += wants_zqcs.eq(zqcs_timer.done)"),
+    B("c04-twin-wait", "C04", RFF, "self.comb += timer.wait.eq(~timer.done)", "self.comb += timer.wait.eq(timer.done == 0)"),
 ]
